@@ -6,7 +6,7 @@ import time
 
 from common import (BIN, ToolError, Work, build_harness, cache_get, cache_put, log, seed, sh, tlc, tree_key)
 
-TIERS = {"quick": {"cases": 60, "regs": 150}, "thorough": {"cases": 900, "regs": 400}}
+TIERS = {"quick": {"cases": 60, "regs": 150, "race": 90}, "thorough": {"cases": 900, "regs": 400, "race": 1500}}
 
 
 def server_pipeline(tier):
@@ -42,7 +42,7 @@ def server_pipeline(tier):
         viols = []
         events = runs = 0
         samples = []
-        for tag, cmd in (("server", ["server", "--cases", cf]), ("stall", ["stall", "--regs", str(T["regs"])])):
+        for tag, cmd in (("server", ["server", "--cases", cf, "--race", str(T["race"])]), ("stall", ["stall", "--regs", str(T["regs"])])):
             trace = work.path("trace-%s.ndjson" % tag)
             p = sh([os.path.join(BIN, "e2e")] + cmd + ["--out", trace, "--seed", str(seed())], timeout=3600)
             summ = json.loads(p.stdout.strip().splitlines()[-1])
@@ -64,6 +64,103 @@ def server_pipeline(tier):
                 viols.append(v)
         res.update({"cases_total": total, "cases_used": len(cases), "events": events, "runs": runs, "viol": viols[:100],
                     "n_viol": len(viols), "samples": samples, "wall_s": round(time.time() - t0, 1)})
+    finally:
+        work.cleanup()
+    cache_put(key, res)
+    return res
+
+
+# ------------------------------------------------------------------ system-level fan-out (C01)
+FAN_TIERS = {"quick": {"gen_env": 5, "sim": 2000, "random": 600, "cap": 6000},
+             "thorough": {"gen_env": 6, "sim": 20000, "random": 6000, "cap": 60000}}
+
+
+def _random_fanout_schedule(rnd):
+    npubs, nsubs = rnd.randint(1, 4), rnd.randint(1, 5)
+    steps = []
+    for _ in range(rnd.randint(5, 60)):
+        x = rnd.random()
+        if x < 0.12:
+            steps.append({"op": "reg_pub", "id": rnd.randint(1, npubs)})
+        elif x < 0.27:
+            steps.append({"op": "reg_sub", "id": rnd.randint(1, nsubs)})
+        elif x < 0.75:
+            steps.append({"op": "publish", "id": rnd.randint(1, npubs), "count": rnd.choice([1, 1, 1, 2, 3, 7, 40])})
+        elif x < 0.80:
+            steps.append({"op": "end", "id": rnd.randint(1, npubs)})
+        elif x < 0.88:
+            steps.append({"op": "block", "id": rnd.randint(1, nsubs)})
+        elif x < 0.96:
+            steps.append({"op": "unblock", "id": rnd.randint(1, nsubs)})
+        else:
+            steps.append({"op": "break", "id": rnd.randint(1, nsubs)})
+    return steps
+
+
+def fanout_pipeline(tier):
+    """Real publishers/subscribers on one topic of the real server replay PubSubGen schedules (joins, ends,
+    paused and departing subscribers); Trace_Fanout validates what every subscriber received."""
+    key = "fanout-%s-%s-%d" % (tier, tree_key(), seed())
+    c = cache_get(key)
+    if c is not None:
+        log("[fanout] reusing pipeline result computed %.0fs ago for the same tree/seed" % (time.time() - c["at"]))
+        c["cached"] = True
+        return c
+    build_harness()
+    T = FAN_TIERS[tier]
+    work = Work("fanout-%s" % tier)
+    t0 = time.time()
+    res = {"at": time.time(), "cached": False}
+    try:
+        from common import cfg_with
+        g = tlc("PubSubGen", cfg_with("MC_PubSubGen.cfg", work, "fgen.cfg", {"MaxEnv": T["gen_env"]}), work, workers=8, timeout=3600, xmx="16g")
+        s = tlc("PubSubGen", "MC_PubSubGen_sim.cfg", work, workers=1, timeout=3600,
+                extra=["-seed", str(seed() + 17), "-simulate", "num=%d" % T["sim"], "-depth", "600"])
+        seen, scheds = set(), []
+        n_model = 0
+        for sc in g.sched_lines() + s.sched_lines():
+            n_model += 1
+            st = [x for x in sc if x["op"] not in ("poll", "close", "perr")]
+            k = json.dumps(st)
+            if st and k not in seen:
+                seen.add(k)
+                scheds.append(st)
+        rnd = random.Random(seed())
+        n_distinct = len(scheds)
+        if len(scheds) > T["cap"]:
+            scheds = rnd.sample(scheds, T["cap"])
+        n_used_model = len(scheds)
+        scheds += [_random_fanout_schedule(rnd) for _ in range(T["random"])]
+        sf = work.path("fan-sched.jsonl")
+        with open(sf, "w") as f:
+            for i, st in enumerate(scheds):
+                f.write(json.dumps({"id": "fan-%d" % i, "steps": st}) + "\n")
+        trace = work.path("trace-fanout.ndjson")
+        p = sh([os.path.join(BIN, "e2e"), "fanout", "--cases", sf, "--out", trace, "--seed", str(seed()), "--par", "8"], timeout=3600)
+        summ = json.loads(p.stdout.strip().splitlines()[-1])
+        r = tlc("Trace_Fanout", "Trace_Fanout.cfg", work, workers=1, trace=trace, timeout=3600, xmx="8g")
+        if not r.ok:
+            raise ToolError("trace validation (Trace_Fanout) did not complete:\n%s" % r.out[-3000:])
+        lines = [x for x in open(trace).read().split("\n") if x]
+        starts = {}
+        for i, x in enumerate(lines):
+            if x.startswith('{"ev":"case"'):
+                starts[json.loads(x)["run"]] = i
+        viols = []
+        for v in r.viol:
+            v = dict(v)
+            b = starts.get(v["run"], max(0, v["line"] - 60))
+            v["schedule"] = {"id": "fan-%d" % (v["run"] - 1), "steps": scheds[v["run"] - 1]} if 0 < v["run"] <= len(scheds) else None
+            v["trace"] = [json.loads(x) for x in lines[b:v["line"]]][-300:]
+            viols.append(v)
+        inconclusive = [n for n in r.notes]
+        items = sum(1 for x in lines if '"ev":"sub_item"' in x)
+        res.update({"schedules_from_model": n_model, "distinct_after_projection": n_distinct, "model_schedules_used": n_used_model,
+                    "random_schedules": T["random"], "runs": summ["runs"], "events": summ["events"], "deliveries_checked": items,
+                    "viol": viols[:100], "n_viol": len(viols), "inconclusive": inconclusive[:20], "n_inconclusive": len(inconclusive),
+                    "sample": [json.loads(x) for x in lines[:14]], "wall_s": round(time.time() - t0, 1)})
+        log("[fanout] %d schedules (%d from PubSubGen, %d random) on the real server: %d events, %d deliveries; flagged %d, inconclusive %d" % (
+            summ["runs"], n_used_model, T["random"], summ["events"], items, len(viols), len(inconclusive)))
     finally:
         work.cleanup()
     cache_put(key, res)
